@@ -82,13 +82,13 @@ def compare_modes(runs, pr, pq, params, cm):
 
 def bounded(repo, tier, seed):
     n = 42 if tier == 'quick' else 900
-    params = [{}, {'diff': 20000}, {'diff': 1000}, {'p': 5}]
+    params = [{}, {'diff': 20000}, {'diff': 1000}, {'p': 5}, {'diff': 0}]        # (0 is a value like any other: join only what touches or overlaps)
     # every 7th set holds only exact copies of reference windows: every query is aligned in full by the first pass, the second pass
     # yields nothing, and the mode equalities must hold all the same (empty additional files included)
     clean = lambda i: dict(kinds=('exact',), weights=None) if i % 7 == 3 else None
     return pd.run(repo, tier, seed, ['C08'], MODES, n, params_list=params, weights=[1, 2, 1, 4, 4, 1], overrides=clean,
                   rule="generated CMAP sets with indel-containing and chimeric queries over-weighted, run in the four multi-pass modes (separate, joined, all, best) "
-                       "on identical inputs with maxDifference 100000/20000/1000 (every 7th set: exact copies only, so that the second pass finds nothing): file equalities between modes, AlignedRest flags, every single-pass record un-joined "
+                       "on identical inputs with maxDifference 100000/20000/1000/0 (every 7th set: exact copies only, so that the second pass finds nothing): file equalities between modes, AlignedRest flags, every single-pass record un-joined "
                        "or in exactly one joined record, joined only for same query/reference/strand within maxDifference, joined pairs subset of the union and equal "
                        "to it when the union is a valid matching; evaluations = records + runs")
 
